@@ -54,7 +54,7 @@ CHECKS.update({
     text="Real searches (all iterations up to a limit complete under the virtual clock) on endgame families, cornered-king sparse-material roots and positions 1-5 plies before mate; the oracle's solver judges mate-in-1 played, avoidable mate avoided after iterations 2-3, every 'mate N' (N<=3) true, 'mate -N' true on the last line of completed depths, stalemating moves never reported as mate. On K+Q / K+R / K+P v K roots (true distance 4-7 moves, searched to depth 9-10) every mate claim of any length is decided exactly by distance-to-mate tables the oracle builds from its own move generation (self-tested: longest mates 10, 16, 28 moves). Black box: the move the real binary plays under 1-20 ms slices, judged only when an info line printed before the allowance ended proves that the first (second) iteration had finished.",
     ref="DESIGN.md §7 C11"),
  "C12": dict(cat="exploration", tech="differential monitor against a heuristic-free alpha-beta reference over the engine's own evaluation and move generation",
-    text="For depths 1-3 the reported score and the selected move's value are compared with the exact minimax value computed by an independent, heuristic-free search that shares only the engine's leaf primitives; the reference is cross-checked against un-pruned minimax in every run.",
+    text="For depths 1-3 the reported score and the selected move's value are compared with the exact minimax value computed by an independent, heuristic-free search that shares only the engine's leaf primitives; the reference is cross-checked against un-pruned minimax in every run. Roots include thousands of sparse unbalanced positions one or two reversible plies after a position that occurred twice, where a repetition draw sits next to values far from zero inside the depth-3 tree.",
     ref="DESIGN.md §7 C12"),
  "C14": dict(cat="exploration", tech="metamorphic monitor (mirror, negation, irrelevance of non-placement state, bound) incl. exhaustive single-piece basis; differential monitor of generator-chain and text-applier boards against a fresh load along game walks",
     text="get_evaluation is checked for mirror symmetry, negation under side swap, independence from every non-placement field and |eval| <= 50000 on the exhaustive single-piece basis (12 x 64 squares x 14 phase levels x 2 sides) and ~2.5*10^5 random placements with up to nine queens a side. Along game walks (library starts and nearly full boards with surplus queens and pawns about to promote; captures and promotions preferred) the board that came down the generator's own successor chain and the board the text applier has been playing on must evaluate exactly like a fresh load of the same position at every ply.",
@@ -66,7 +66,7 @@ CHECKS.update({
     text="Probes (zero-slice and timed) issued after generated prefixes of up to 60 commands, including the probed game itself so that a leaked repetition record doubles counts, are compared with fresh-engine references. Long sessions (the probed game searched once, then 253..258 / 509..514 - thorough: also about 1024, 4096, 65536 - searches of other positions, then the probe) look for state that is told apart by a small counter or generation number.",
     ref="DESIGN.md §7 C16", note=BB_NOTE),
  "C17": dict(cat="exploration", tech="differential monitor of scripts with/without garbage lines; lifecycle checks via /proc (exit, CPU time after EOF)",
-    text="Scripts with unknown lines inserted at random points must give the same answers as without them, isready is always answered, quit and EOF end the process promptly and it does not spin (process CPU time vs wall time). Scripts switch the engine's log file on in half of the sessions, carry long multi-byte and non-UTF-8 lines, and are also written pipelined (no waiting for replies) and ended by quit or end of input. Unknown lines include command words with control or invisible characters inside, long lines made of command words, NUL bytes, megabyte lines; end of input also arrives in the middle of a line.",
+    text="Scripts with unknown lines inserted at random points must give the same answers as without them, isready is always answered, quit and EOF end the process promptly and it does not spin (process CPU time vs wall time). Scripts switch the engine's log file on in half of the sessions, carry long multi-byte and non-UTF-8 lines, and are also written pipelined (no waiting for replies) and ended by quit or end of input. Odd white space includes every Unicode white-space character the engine's normaliser accepts (vertical tab, form feed, NEL, no-break space, em space, ...). Unknown lines include command words with control or invisible characters inside, long lines made of command words, NUL bytes, megabyte lines; end of input also arrives in the middle of a line.",
     ref="DESIGN.md §7 C17", note=BB_NOTE),
  "C18": dict(cat="exploration", tech="trace-specification monitor (strict grammar + bounds + monotonicity) over info lines from clock-cut in-process searches and real transcripts",
     text="Every info line produced while the virtual clock cuts the search at enumerated points, and every line of timed go commands on the real binary, is parsed against the strict grammar and checked for depth monotonicity, score bounds (incl. the value implied by mate N), first-PV-move legality and strictly increasing scores within a depth. The black box includes info bursts at the deadline (a quarter of them under ptrace delay injection at the standard-output entry points, which tears lines that are not written under one lock) and searches of 1.2-3 s on balanced middle-game roots produced by the engine's own self-play, where one depth prints several lines hundreds of milliseconds apart.",
